@@ -307,6 +307,7 @@ type execResult struct {
 
 func runHistory(seq []op, prefix []int, alts int, sweepCtxs int) execResult {
 	vsync.DropAll()
+	twx.ResetIdentities()
 	st := []*engState{{reg: map[string]int{}, cacheOn: true}, {reg: map[string]int{}, cacheOn: true}}
 	x := vsync.NewExec(prefix)
 	x.PoolChoices = true
